@@ -26,8 +26,10 @@ CLAIMS["C03"] = (
     "function of the lib crate, each discharged by a re-checked guard or a reviewed row; (b) every "
     "loop of the crate makes progress on every cycle (lexicographic measure argument, push-back "
     "weighed by negative-cycle detection), scanners consume >= 1 character; (d) line-length guard "
-    "dominates lexer entry, recursion set reviewed; (e) VM errors become BASIC error states. Not "
-    "decided: native stack depth, UI protocol liveness.",
+    "dominates lexer entry, recursion set reviewed and the expression cycle depth-guarded; "
+    "debug assertions on the interpreter state are discharged by a variant may-analysis "
+    "(typestate) of self.state; (e) VM errors become BASIC error states. Not decided: exact "
+    "native stack budget, UI protocol liveness.",
     "panic-site inventory + loop-progress (ranking) analysis on MIR CFGs")
 
 CLAIMS["C14"] = (
@@ -133,8 +135,9 @@ CLAIMS["C18"] = (
     "limit check on all paths; variable pool limit dominates inserts; every container field of "
     "the state structs inventoried with its bound (fail closed on new ones); a full stack is "
     "cleared on error; defaults free their slots; ON..GOSUB's frame marker is consumed on the "
-    "fall-through path. Whole-program stack neutrality of every statement template is left to "
-    "the thorough tier's scheme analysis; long-run behaviour is not decided.",
+    "fall-through path; RETURN carries at most the top value; INPUT accepts exactly as many "
+    "fields as it pops; a full variable pool still accepts overwrites. Stack neutrality of "
+    "every statement template as a whole and long-run behaviour are not decided.",
     "must-pass-through (post-dominance) of limit checks + container inventory from ADT types")
 
 CLAIMS["C11"] = (
